@@ -78,9 +78,15 @@ package channels
 //@   nonnil stateMachines, blockIndexCache, progressCache, notifier, migrateStateMachines
 //@ type blockIndexCache
 //@   nonnil values
+//@   lock lk guards values
+//@   guarantee [cell-stable] {C07,C20} forall k cacheKey :: old(has(self.values, k)) && old(self.values[k]) != nil ==>
+//@       has(self.values, k) && self.values[k] == old(self.values[k]) -- a high-water-mark cell, once installed for a key, is never replaced
 //@ type progressCache
 //@   nonnil values
-//@   invariant [progress-cells] {C08} forall k datatransfer.ChannelID :: has(self.values, k) ==> self.values[k].progress != nil
+//@   lock lk guards values
+//@   invariant lk [progress-cells] {C08,C20} forall k datatransfer.ChannelID :: has(self.values, k) ==> self.values[k].progress != nil
+//@   guarantee [progress-cell-stable] {C08,C20} forall k datatransfer.ChannelID :: old(has(self.values, k)) ==>
+//@       has(self.values, k) && self.values[k].progress == old(self.values[k].progress) -- the byte counter of a channel is never replaced
 
 // ---------------------------------------------------------------------------------------------
 // Channels: every mutation of a channel goes through exactly one FSM event (single writer)
@@ -339,12 +345,12 @@ package channels
 //@ func (*channels.progressCache).getValue {C08,C20}
 //@   requires readProgress != nil
 //@   modifies pc.values
-//@   ensures [hit] old(has(pc.values, chid)) ==> err == nil && result0 == old(pc.values[chid]) && untouched
+//@   ensures [hit] old(has(pc.values, chid)) ==> err == nil && result0.progress == old(pc.values[chid]).progress && untouched
 //@   ensures [seeded] calls(dyn.readProgressFn) == 1 && ret(dyn.readProgressFn, 2) == nil ==>
 //@       err == nil && result0.dataLimit == ret(dyn.readProgressFn, 0) && result0.progress != nil && *result0.progress == ret(dyn.readProgressFn, 1) &&
 //@       arg(dyn.readProgressFn, 1) == chid && has(pc.values, chid) && pc.values[chid] == result0
 //@   ensures [read-failure] calls(dyn.readProgressFn) == 1 && ret(dyn.readProgressFn, 2) != nil ==> err != nil
-//@   ensures [miss-reads] !old(has(pc.values, chid)) ==> calls(dyn.readProgressFn) == 1
+//@   ensures [at-most-one-read] calls(dyn.readProgressFn) <= 1
 //@   ensures [nonnil] err == nil ==> result0.progress != nil
 
 //@ func (*channels.progressCache).progress {C08}
@@ -359,7 +365,6 @@ package channels
 
 //@ func (*channels.progressCache).setDataLimit {C08,C20}
 //@   modifies pc.values
-//@   ensures [absent] !old(has(pc.values, chid)) ==> !has(pc.values, chid)
 //@   ensures [present] old(has(pc.values, chid)) ==> has(pc.values, chid) && pc.values[chid].dataLimit == newLimit &&
 //@       pc.values[chid].progress == old(pc.values[chid].progress)
 //@   ensures [untouched] untouched
